@@ -229,9 +229,9 @@ PROP = Prop(
           "the same solution oracle; fewer than 2 distinct values -> ValueError. Non-trivial = a "
           "target with >=2 solutions, a touch (t = min y or max y) or the closest-point fallback."),
     clauses=[
-        Clause("invert_pl", check_pl, strategy=_pl_cases(), quick=1500, thorough=8000, quick_shards=3, fuzz=40000,
+        Clause("invert_pl", check_pl, strategy=_pl_cases(), quick=1500, thorough=32000, quick_shards=3, fuzz=40000,
                min_nontrivial=300, doc="solutions of the interpolant, ordering, fallback"),
-        Clause("threshold_at_metric", check_tam, strategy=_tam_cases(), quick=400, thorough=2000,
+        Clause("threshold_at_metric", check_tam, strategy=_tam_cases(), quick=400, thorough=8000,
                quick_shards=3, min_nontrivial=100, doc="= inversion on the documented evaluation points"),
     ],
 )
